@@ -2,7 +2,10 @@
 
 Extracted with `ast` from the current source:
   * the pattern of `_git_object_name`,
-  * the string literals `_GitTransaction.__init__` tests/prepends for the target ref,
+  * the string literals `_GitTransaction.__init__` tests/prepends for the target ref, in source order; helper
+    methods of the class and plain module-level functions it calls are inlined at the call, and a name
+    bound once at module level to a string literal counts as that literal (so moving the check into a helper or
+    naming the prefix does not change the list, while another prefix, a dropped or an added test does),
   * for `__enter__`, `__exit__` (exception path / normal path) and `record_update`: the sequence of git
     commands they issue in source order, helper methods of the class inlined (so extracting or inlining
     a helper does not change it, while dropping, adding or reordering a plumbing command does),
@@ -27,10 +30,47 @@ def cmds_to_coq(cmds: list[list[str]]) -> str:
     return "[" + "; ".join("[" + "; ".join(nlist(w) for w in c) + "]" for c in cmds) + "]"
 
 
+def module_functions(mod: ast.Module) -> dict[str, ast.FunctionDef]:
+    """plain module-level functions that are bound exactly once (candidates for inlining at their call sites)"""
+    count: dict[str, int] = {}
+    for n in ast.walk(mod):
+        if isinstance(n, (ast.FunctionDef, ast.AsyncFunctionDef, ast.ClassDef)):
+            count[n.name] = count.get(n.name, 0) + 1
+        elif isinstance(n, ast.Name) and isinstance(n.ctx, ast.Store):
+            count[n.id] = count.get(n.id, 0) + 1
+        elif isinstance(n, ast.alias):
+            nm = (n.asname or n.name).split(".")[0]
+            count[nm] = count.get(nm, 0) + 1
+    return {n.name: n for n in mod.body if isinstance(n, ast.FunctionDef) and count.get(n.name) == 1 and not n.decorator_list}
+
+
+def module_str_constants(mod: ast.Module) -> dict[str, str]:
+    count: dict[str, int] = {}
+    for n in ast.walk(mod):
+        if isinstance(n, ast.Name) and isinstance(n.ctx, ast.Store):
+            count[n.id] = count.get(n.id, 0) + 1
+        elif isinstance(n, (ast.FunctionDef, ast.AsyncFunctionDef, ast.ClassDef)):
+            count[n.name] = count.get(n.name, 0) + 1
+        elif isinstance(n, ast.arg):
+            count[n.arg] = count.get(n.arg, 0) + 1      # a parameter of that name would shadow it somewhere
+    out = {}
+    for n in mod.body:
+        tg = None
+        if isinstance(n, ast.Assign) and len(n.targets) == 1:
+            tg = n.targets[0]
+        elif isinstance(n, ast.AnnAssign):
+            tg = n.target
+        if isinstance(tg, ast.Name) and isinstance(n.value, ast.Constant) and isinstance(n.value.value, str) and count.get(tg.id) == 1:
+            out[tg.id] = n.value.value
+    return out
+
+
 class Flattener:
-    def __init__(self, cls: ast.ClassDef):
+    def __init__(self, cls: ast.ClassDef, mod: ast.Module | None = None):
         self.methods = {n.name: n for n in cls.body if isinstance(n, ast.FunctionDef)}
         self.cls = cls.name
+        self.functions = module_functions(mod) if mod is not None else {}
+        self.consts = module_str_constants(mod) if mod is not None else {}
 
     def unmangle(self, attr: str) -> str:
         return attr
@@ -47,10 +87,12 @@ class Flattener:
             return words
         return None
 
-    def helper(self, call: ast.Call) -> str | None:
+    def helper(self, call: ast.Call) -> ast.FunctionDef | None:
         f = call.func
         if isinstance(f, ast.Attribute) and isinstance(f.value, ast.Name) and f.value.id == "self" and f.attr in self.methods:
-            return f.attr
+            return self.methods[f.attr]
+        if isinstance(f, ast.Name) and f.id in self.functions:
+            return self.functions[f.id]
         return None
 
     def walk(self, node: ast.AST, out: list[list[str]], depth: int = 0) -> None:
@@ -66,11 +108,29 @@ class Flattener:
                 return
             h = self.helper(node)
             if h is not None:
-                for st in self.methods[h].body:
+                for st in h.body:
                     self.walk(st, out, depth + 1)
             return
         for ch in ast.iter_child_nodes(node):
             self.walk(ch, out, depth)
+
+    def literals(self, node: ast.AST, prefix: str, out: list[str], depth: int = 0) -> None:
+        """string literals starting with `prefix`, in source order, helpers inlined at their call"""
+        if depth > 6:
+            return
+        if isinstance(node, ast.Constant) and isinstance(node.value, str) and node.value.startswith(prefix):
+            out.append(node.value)
+            return
+        if isinstance(node, ast.Name) and isinstance(node.ctx, ast.Load) and self.consts.get(node.id, "").startswith(prefix):
+            out.append(self.consts[node.id])
+            return
+        for ch in ast.iter_child_nodes(node):
+            self.literals(ch, prefix, out, depth)
+        if isinstance(node, ast.Call):
+            h = self.helper(node)
+            if h is not None:
+                for st in h.body:
+                    self.literals(st, prefix, out, depth + 1)
 
     def seq(self, stmts: list[ast.stmt]) -> list[list[str]]:
         out: list[list[str]] = []
@@ -88,12 +148,11 @@ def extract(src: str) -> dict:
             if isinstance(c, ast.Call) and c.args and isinstance(c.args[0], ast.Constant):
                 res["pattern"] = c.args[0].value
     tx = next(n for n in mod.body if isinstance(n, ast.ClassDef) and n.name == "_GitTransaction")
-    fl = Flattener(tx)
+    fl = Flattener(tx, mod)
     init = fl.methods["__init__"]
-    lits = []
-    for n in ast.walk(init):
-        if isinstance(n, ast.Constant) and isinstance(n.value, str) and n.value.startswith("refs/"):
-            lits.append(n.value)
+    lits: list[str] = []
+    for st in init.body:
+        fl.literals(st, "refs/", lits)
     res["ref_literals"] = lits
     res["enter"] = fl.seq(fl.methods["__enter__"].body)
     ex = fl.methods["__exit__"].body
